@@ -26,7 +26,8 @@ def run(ctx, replay=None):
             ctx.classify("coe-" + c["res"].lower(), "C16 oracle: %s in SDO operation %d against a scripted mailbox (reply kind %d)" % (c["res"], c["op"], c["skind"]), c)
         elif c["status_polls"] > 2500:
             ctx.classify("coe-endless", "C16 oracle: the operation kept polling (more than 2500 status reads)", c)
-    dis = C.compare_with_model(ctx, cases)
+    # operation 5 (read into a bounded heapless::Vec) is judged for totality only: the model has no such destination
+    dis = C.compare_with_model(ctx, [c for c in cases if c["op"] != 5])
     ctx.coverage.update(evaluations=len(cases), distinct_nontrivial=len({json.dumps([c["per_req"], c["op"], c["tn"]]) for c in cases}),
-                        rule="adversarial replies: plausible expedited/normal/segment/SDO-info replies or random bytes, then truncated at any length, mailbox length field over its range, service/command/type bytes over their range, byte noise, lengths 0..10, complete size over u32, endless empty segments, endless fragments, another opcode forever; mailbox sizes 16..1024; every entry point (sdo_read of 14 destination sizes, sdo_write, sdo_write_array, sdo_read_array, sdo_info list/quantities); plus the faithful-server cases",
+                        rule="adversarial replies: plausible expedited/normal/segment/SDO-info replies or random bytes, then truncated at any length, mailbox length field over its range, service/command/type bytes over their range, byte noise, lengths 0..10, complete size over u32, endless empty segments, endless fragments, another opcode forever; mailbox sizes 16..1024; every entry point (sdo_read of 14 fixed destination sizes and into a bounded heapless::Vec<u8, 8> (totality only), sdo_write, sdo_write_array, sdo_read_array, sdo_info list/quantities); plus the faithful-server cases",
                         outcomes=outcomes, disagreements=dis, samples=[{"op": cases[0]["op"], "skind": cases[0]["skind"], "res": cases[0]["res"]}])
